@@ -88,10 +88,10 @@ func (srv *Server) Characteristics(w http.ResponseWriter, r *http.Request) {
 		if err == true {
 			// Set 207 status when any of the response includes an error
 			w.WriteHeader(http.StatusMultiStatus)
-			for _, resp := range arr {
-				if resp.Status == nil {
+			for i := range arr {
+				if arr[i].Status == nil {
 					ok := 0
-					resp.Status = &ok // make sure that every response contains a status code (0 means OK)
+					arr[i].Status = &ok // make sure that every response contains a status code (0 means OK)
 				}
 			}
 		} else {
@@ -126,6 +126,8 @@ func (srv *Server) Characteristics(w http.ResponseWriter, r *http.Request) {
 			c := srv.getCharacteristic(ch.AccessoryID, ch.CharacteristicID)
 			if c == nil {
 				log.Info.Printf("Could not find characteristic with aid %d and iid %d\n", ch.AccessoryID, ch.CharacteristicID)
+				status := hap.StatusResourceDoesNotExist
+				resp.Characteristics = append(resp.Characteristics, CharacteristicResponse{AccessoryID: ch.AccessoryID, CharacteristicID: ch.CharacteristicID, Status: &status})
 				continue
 			}
 
